@@ -191,26 +191,67 @@ def same_tracers(ctx):
     # the three set_traps multiply those points by the scalar
     for key, proj in (('core::TracingSecretKey::set_traps', {'1'}), ('core::UserSecretKey::set_traps', set()),
                       ('core::MasterPublicKey::set_traps', set())):
-        fam = F.family(key)
-        muls = []
-        for fb in fam:
-            muls += [c for c in fb.calls(r'^std::ops::Mul::mul$')]
-        okm = len(muls) == 1
-        detail = ''
-        if okm:
-            m = muls[0]
-            fb = m.body
-            # one operand is the closure's element (param 2, with the expected projection), the other the captured scalar r
-            sides = []
-            for a in m.args:
-                rs = copy_chain_sources(fb, a, through_calls=IDENTITY_CALLS)
-                sides.append(rs)
-            elem = [r for rs in sides for r in rs if r[0] == 'param' and r[1] == 2]
-            cap = [r for rs in sides for r in rs if r[0] == 'param' and r[1] == 1]
-            pr = set(x for r in elem for x in r[2][:1] if not x.startswith('@'))
-            okm = bool(elem) and bool(cap) and pr == proj and any('r' in [re.sub(r'^_ref__', '', x) for x in r[2]] for r in cap)
-            detail = 'element%s * r' % ('.1' if proj else '')
-        ctx.check(okm, key, 'traps = points * r', '%s does not multiply every tracing point by the given scalar' % key, detail, F.fn(key).where())
+        n, pr, scalar = scaling(F, key)
+        okm = n == 1 and pr == proj and scalar == 2
+        ctx.check(okm, key, 'traps = points * r', '%s does not multiply every tracing point by the given scalar (multiplications: %d, '
+                  'element projection %s, scalar = parameter %s)' % (key, n, sorted(pr), scalar),
+                  'element%s * r' % ('.1' if proj else ''), F.fn(key).where())
+
+
+def scaling(F, key, depth=0):
+    """(number of multiplications, projections applied to the iterated element, index of the parameter of `key` the elements
+    are multiplied by) for a function mapping `element * scalar` over an iterator, directly or through one private helper."""
+    from .c07 import root_local
+    rb = F.fn(key)
+    fam = F.family(key)
+    muls = [c for fb in fam for c in fb.calls(r'^std::ops::Mul::mul$')]
+    projs = set()
+    for fb in fam:
+        if fb.kind != 'Closure':
+            continue
+        for b in sorted(fb.live_blocks()):
+            for st in fb.stmts(b):
+                rv = st['rv']
+                pl = rv['pl'] if rv['k'] == 'ref' else (op_place(rv['a']) if rv['k'] == 'use' and is_place(rv['a']) else None)
+                if pl is not None and pl['l'] == 2:
+                    fp = [x for x in field_path(pl) if not x.startswith('@')]
+                    if fp:
+                        projs.add(fp[0])
+    if len(muls) == 1:
+        m = muls[0]
+        fb = m.body
+        scalar = None
+        elem = False
+        for a in m.args:
+            rs = copy_chain_sources(fb, a, through_calls=IDENTITY_CALLS)
+            if fb.kind == 'Closure' and any(r[0] == 'param' and r[1] == 2 for r in rs):
+                elem = True
+                continue
+            b2, l = root_local(F, fb, a)
+            if b2 is rb and l is not None:
+                for r in copy_chain_sources(rb, {'cp': {'l': l, 'p': []}}, through_calls=IDENTITY_CALLS):
+                    if r[0] == 'param':
+                        scalar = r[1]
+        return (1 if elem else 0), projs, scalar
+    if not muls and depth < 2:
+        subs = []
+        for c in rb.calls():
+            g = lib.local_callee(F, c)
+            if g is None or g.kind == 'Closure' or g.key == key:
+                continue
+            n, pr, sc = scaling(F, g.key, depth + 1)
+            if n:
+                subs.append((c, n, pr, sc))
+        if len(subs) == 1:
+            c, n, pr, sc = subs[0]
+            scalar = None
+            if sc is not None and 0 < sc <= len(c.args):
+                for r in copy_chain_sources(rb, c.args[sc - 1], through_calls=IDENTITY_CALLS):
+                    if r[0] == 'param':
+                        scalar = r[1]
+            return n, projs | pr, scalar
+        return sum(s[1] for s in subs), projs, None
+    return len(muls), projs, None
 
 
 @rule('C17', 'witness-private', tier='thorough')
